@@ -2,7 +2,7 @@ SPECIFICATION Spec
 CONSTANTS
   Ms = {64, 128, 256}
   RecThreshold = 32
-  Layout = "reim"
+  Layout = "cplx"
   GenMode = FALSE
 INVARIANTS WellFormed OneMonomialPerInput IsEvalMap FullMixing
 CHECK_DEADLOCK FALSE
